@@ -13,7 +13,9 @@ cleared / allocated, interpreter reset = new `CommandManager` + new `Tracking`).
 
 The model follows the code *with the repair `fixes/C11-uod-cancel-paths.diff`* when `cfg.fixCancel` /
 `cfg.fixInstr` are set, and the unchanged code when they are not (used for the counter-example theorems and as
-the mutant of the harness self-test).
+the mutant of the harness self-test).  `cfg.fixStop` switches on the repair proposed in
+`fixes/C10-dispose-instances-on-stop.diff` (an instance whose arguments are rejected is disposed at once; Stop and
+Restart cancel all commands a second time in their second phase).
 
 Abstractions
 * UOD exec functions are parameters (`CmdSpec`): the command completes in the iteration in which the iteration
@@ -61,6 +63,9 @@ structure Cfg where
   fixCancel : Bool := true
   /-- `cancel_instruction` repaired: ended commands are refused; the request is looked up by instance id. -/
   fixInstr : Bool := true
+  /-- `fixes/C10-dispose-instances-on-stop.diff`: `_execute_uod_command` disposes a never-initialised instance
+  when `parse_args` rejects the arguments; Stop / Restart call `cancel_all_commands` again in their second phase. -/
+  fixStop : Bool := true
 deriving Repr, DecidableEq
 
 /-- A `UodCommand` object. `iters` = number of `execute()` calls so far (`_exec_iterations + 1`). -/
@@ -383,6 +388,12 @@ def failParse (s : State) (r : Req) : State :=
 def keepStale (s : State) (k i : Nat) : State :=
   { s with stale := if (staleOwner s.stale k).isSome then s.stale else s.stale ++ [(k, i)] }
 
+/-- What becomes of the uninitialised instance when `parse_args` rejects the arguments: the repaired code
+disposes it ("if not uod_command.is_initialized(): self.uod.dispose_command(uod_command)"), the unchanged code
+leaves it in the map. -/
+def rejectInst (s : State) (k i : Nat) : State :=
+  if s.cfg.fixStop then { s with stale := dropStale s.stale k } else keepStale s k i
+
 /-- `create_command` (or the older, never initialised instance), `parse_args` accepted, `initialize()`: the
 instance's first callback. -/
 def initNew (s : State) (k i : Nat) : State × Cmd :=
@@ -399,7 +410,7 @@ def executeUod (s : State) (r : Req) (k : Nat) : State × Bool :=
   match findLive s2.objs k with
   | some c => if r.bad then (failParse s2 r, true) else runCmd s2 r k c
   | none =>
-    if r.bad then (failParse (keepStale s2 k r.id) r, true)
+    if r.bad then (failParse (rejectInst s2 k r.id) r, true)
     else runCmd (initNew s2 k r.id).1 r k (initNew s2 k r.id).2
 
 /-! ### Start / Stop / Restart -/
@@ -433,8 +444,13 @@ def lifeStop0 (s : State) (r : Req) : State :=
   if s.sys != .running then lifeDone s r
   else { cancelAll .stop s.executing { s with stopping := true } with resident := some ⟨.stop, 1⟩ }
 
+/-- Repaired code: the second phase of Stop / Restart starts with another `cancel_all_commands` (a command
+from the user's command buttons may have started since the first phase). -/
+def lastCancel (src : Name) (s : State) : State :=
+  if s.cfg.fixStop then cancelAll src s.executing s else s
+
 /-- …and after it. -/
-def lifeStop1 (s : State) (r : Req) : State := lifeDone (endRun s []) r
+def lifeStop1 (s : State) (r : Req) : State := lifeDone (endRun (lastCancel .stop s) []) r
 
 /-- `RestartEngineCommand._run`, first part. -/
 def lifeRestart0 (s : State) (r : Req) : State :=
@@ -444,7 +460,8 @@ def lifeRestart0 (s : State) (r : Req) : State :=
 
 /-- second part: the run ends; the new command manager inherits the Restart request. -/
 def lifeRestart1 (s : State) : State :=
-  { endRun s (match s.restartPending with | some p => [p] | none => []) with resident := some ⟨.restart, 2⟩ }
+  { endRun (lastCancel .restart s) (match s.restartPending with | some p => [p] | none => [])
+    with resident := some ⟨.restart, 2⟩ }
 
 /-- third part: the new run begins. -/
 def lifeRestart2 (s : State) (r : Req) : State := lifeDone (beginRun s) r
